@@ -14,6 +14,27 @@ pub(crate) fn check_unused_literals(items: &[ToplevelItem], env: &Env) -> Vec<Di
     visitor.diagnostics()
 }
 
+/// Is this expression built only from literals and variables, so
+/// evaluating it has no side effects?
+fn is_pure_literal(expr: &Expression) -> bool {
+    match &expr.expr_ {
+        Expression_::IntLiteral(_)
+        | Expression_::FloatLiteral(_)
+        | Expression_::StringLiteral(_)
+        | Expression_::Variable(_) => true,
+        Expression_::ListLiteral(items) => items.iter().all(|item| is_pure_literal(&item.expr)),
+        Expression_::TupleLiteral(items) => items.iter().all(|item| is_pure_literal(item)),
+        Expression_::DictLiteral(items) => items
+            .iter()
+            .all(|kv| is_pure_literal(&kv.key) && is_pure_literal(&kv.value)),
+        Expression_::StructLiteral(_, fields) => {
+            fields.iter().all(|(_, value)| is_pure_literal(value))
+        }
+        Expression_::Parentheses(paren) => is_pure_literal(&paren.expr),
+        _ => false,
+    }
+}
+
 struct UnusedLiteralVisitor<'a> {
     unused_literals: Vec<Diagnostic>,
     env: &'a Env,
@@ -45,10 +66,17 @@ impl<'a> UnusedLiteralVisitor<'a> {
         );
 
         if is_literal {
-            let fix = Autofix {
-                description: "Remove unused value".to_owned(),
-                position: self.get_line_position(&expr.position),
-                new_text: String::new(),
+            // Only offer to remove the literal if evaluating it
+            // cannot have side effects: `[foo()]` is an unused value,
+            // but removing it would also remove the call.
+            let fixes = if is_pure_literal(expr) {
+                vec![Autofix {
+                    description: "Remove unused value".to_owned(),
+                    position: self.get_line_position(&expr.position),
+                    new_text: String::new(),
+                }]
+            } else {
+                vec![]
             };
 
             self.unused_literals.push(Diagnostic {
@@ -56,7 +84,7 @@ impl<'a> UnusedLiteralVisitor<'a> {
                 severity: Severity::Warning,
                 message: ErrorMessage(vec![Text("Unused value.".to_owned())]),
                 position: expr.position.clone(),
-                fixes: vec![fix],
+                fixes,
             });
         }
     }
